@@ -418,9 +418,9 @@ theorem instr_out_of_range_rejected :
   decide
 
 example : encode (.newRecord 0 2) = .obj [("NewRecord", .obj [("record", .int 0), ("args", .int 2)])] := by
-  decide
-example : encode .split = .str "Split" := by decide
-example : encode (.pushInt (-5)) = .obj [("PushInt", .int (-5))] := by decide
+  rfl
+example : encode .split = .str "Split" := by rfl
+example : encode (.pushInt (-5)) = .obj [("PushInt", .int (-5))] := by rfl
 example : decode (.obj [("NewRecord", .obj [("args", .int 2), ("x", .arr []), ("record", .int 0)])]) =
     some (.newRecord 0 2) := by decide
 example : decode (.obj [("NewRecord", .arr [.int 0, .int 2])]) = some (.newRecord 0 2) := by decide
@@ -437,9 +437,10 @@ example : JsonText.print (encodeList [.push 3, .split, .newRecord 0 2]) =
 theorem stack_effect_agrees_with_adjust (i : Instr) (k h : Nat) (hp : handPatched i = false)
     (hok : (toV k i).stack.okAt h = true) :
     (((toV k i).stack.after h : Nat) : Int) = (h : Int) + adjustOf i := by
-  cases i <;>
-    simp_all [toV, handPatched, adjustOf, adjustGen, Instr.kind, Instr.intOps,
-      StackVerify.Instr.okAt, StackVerify.Instr.after, StackVerify.Instr.needs] <;>
+  cases i <;> simp only [handPatched] at hp <;> (try cases hp) <;>
+    simp [toV, adjustOf, adjustGen, Instr.kind, Instr.intOps,
+      StackVerify.Instr.okAt, StackVerify.Instr.after, StackVerify.Instr.needs] at hok ⊢ <;>
+    (try (replace hok := of_decide_eq_true hok)) <;>
     omega
 
 example : handPatched (.constructRecord 0 3) = false ∧
